@@ -254,6 +254,19 @@ def main():
             if worst > 1e-10:
                 ck.violation("apply-equals-propagation", kind,
                              dict(rp, err=worst), rp)
+            # calculated inside the eigenbasis of the Hamiltonian (as the
+            # library's own examples do) and used outside = calculated
+            # outside
+            ec = qr.qm.EvolutionSuperOperator(time, ham=ham, relt=RT)
+            ec.set_dense_dt(2)
+            with qr.eigenbasis_of(ham):
+                quiet(ec.calculate)
+            worst = float(numpy.abs(numpy.array(ec.data) - U).max())
+            ck.case("calculated-in-eigenbasis", s, sample=dict(rp, err=worst))
+            if worst > 1e-9:
+                ck.violation("apply-equals-propagation",
+                             kind + ":calculated-in-eigenbasis",
+                             dict(rp, err=worst), rp)
             # incremental = all at once
             for save in (False, True):
                 ej = qr.qm.EvolutionSuperOperator(time, ham=ham, relt=RT,
